@@ -32,7 +32,7 @@ REGIMES = ["FLOAT", "FLOAT", "FLOAT", "REAL", "BOOL", "MT", "QQ", "FREE", "FREE"
 
 
 def examples(tier):
-    return 320 if tier == "quick" else 6000
+    return 960 if tier == "quick" else 10000
 
 
 @st.composite
